@@ -288,7 +288,7 @@ class PropertyRun:
             if getattr(c, "oracle", None) and not c.logical and c.qn not in self._searched:
                 try:
                     ex = Exec(self.repo, self.reg, self.pid)
-                    n = 400 if self.tier == "quick" else 4000
+                    n = 3000 if self.tier == "quick" else 20000
                     f2, d2, i2, ev = replay_mod.concrete_search(self, c, ex, n, self.seed)
                 except Exception as e:  # noqa
                     f2, d2, i2, ev = False, "bounded search crashed: %r" % (e,), None, 0
